@@ -1,5 +1,220 @@
-//! (to be written)
-pub fn cmd(_args: &crate::Args) {
-    eprintln!("frames: not implemented yet");
-    std::process::exit(2);
+//! C07 at the record layer: the real RecordWriter over an in-memory block writer that logs every
+//! write, the real RecordReader over the produced bytes.  Every case: a start cursor (reached by
+//! a filler entry), a sequence of entry lengths chosen relative to the cursor, read back.
+use std::io;
+use std::path::PathBuf;
+use std::sync::{Arc, Mutex};
+
+use mrecordlog::verif::{FrameWriter, RawEntry, RecordReader, RecordWriter};
+use mrecordlog::{BlockRead, BlockWrite, PersistAction, BLOCK_NUM_BYTES};
+use serde_json::{json, Value};
+
+use crate::gen::Rng;
+use crate::script::{digest, plain_bytes};
+use crate::{parallel, write_lines, Args, Output};
+
+const HDR: usize = 7;
+
+#[derive(Default)]
+struct LogWriter {
+    data: Vec<u8>,
+    writes: Arc<Mutex<Vec<(usize, usize, u8)>>>,
+}
+
+impl BlockWrite for LogWriter {
+    fn write(&mut self, buf: &[u8]) -> io::Result<()> {
+        assert!(buf.len() <= self.num_bytes_remaining_in_block());
+        if buf.is_empty() {
+            return Ok(());
+        }
+        let frame_type = if buf.len() >= HDR { buf[6] } else { 0 };
+        self.writes.lock().unwrap().push((self.data.len(), buf.len(), frame_type));
+        self.data.extend_from_slice(buf);
+        Ok(())
+    }
+    fn persist(&mut self, _persist_action: PersistAction) -> io::Result<()> {
+        Ok(())
+    }
+    fn num_bytes_remaining_in_block(&self) -> usize {
+        BLOCK_NUM_BYTES - (self.data.len() % BLOCK_NUM_BYTES)
+    }
+}
+
+struct VecReader {
+    data: Vec<u8>,
+    block_idx: usize,
+    block: Box<[u8; BLOCK_NUM_BYTES]>,
+}
+
+impl VecReader {
+    fn new(mut data: Vec<u8>) -> VecReader {
+        // files are pre-sized with zeros: pad to whole blocks plus one empty block
+        let blocks = data.len() / BLOCK_NUM_BYTES + 2;
+        data.resize(blocks * BLOCK_NUM_BYTES, 0);
+        let mut block = Box::new([0u8; BLOCK_NUM_BYTES]);
+        block.copy_from_slice(&data[..BLOCK_NUM_BYTES]);
+        VecReader { data, block_idx: 0, block }
+    }
+}
+
+impl BlockRead for VecReader {
+    fn next_block(&mut self) -> io::Result<bool> {
+        let start = (self.block_idx + 1) * BLOCK_NUM_BYTES;
+        if start + BLOCK_NUM_BYTES > self.data.len() {
+            return Ok(false);
+        }
+        self.block.copy_from_slice(&self.data[start..start + BLOCK_NUM_BYTES]);
+        self.block_idx += 1;
+        Ok(true)
+    }
+    fn block(&self) -> &[u8; BLOCK_NUM_BYTES] {
+        &self.block
+    }
+}
+
+/// Returns the trace line of one case.
+fn run_case(case_id: usize, start: usize, lens: &[usize], seed: u64) -> Value {
+    let writes = Arc::new(Mutex::new(Vec::new()));
+    let log_writer = LogWriter { data: Vec::new(), writes: writes.clone() };
+    let mut writer: RecordWriter<LogWriter> = FrameWriter::create(log_writer).into();
+    // fillers: whole blocks, then one Full frame ending at the start offset
+    let mut fill_entries = 0;
+    let blocks = start / BLOCK_NUM_BYTES;
+    for _ in 0..blocks {
+        writer.write_record(RawEntry(&vec![0xAAu8; BLOCK_NUM_BYTES - HDR])).unwrap();
+        fill_entries += 1;
+    }
+    let in_block = start % BLOCK_NUM_BYTES;
+    if in_block >= HDR {
+        writer.write_record(RawEntry(&vec![0xBBu8; in_block - HDR])).unwrap();
+        fill_entries += 1;
+    }
+    let filler_writes = writes.lock().unwrap().len();
+    let real_start = writer.get_underlying_wrt().data.len();
+    let mut wrote = Vec::new();
+    let mut reported = Vec::new();
+    for (idx, len) in lens.iter().enumerate() {
+        let bytes = plain_bytes(seed.wrapping_add(idx as u64), *len);
+        wrote.push(json!([*len, digest(&bytes)]));
+        let spent = writer.write_record(RawEntry(&bytes)).unwrap();
+        reported.push(spent);
+    }
+    let all_writes = writes.lock().unwrap().clone();
+    let ws: Vec<Value> = all_writes[filler_writes..]
+        .iter()
+        .map(|(off, len, frame_type)| json!([*off, *len, *frame_type]))
+        .collect();
+    let end = writer.get_underlying_wrt().data.len();
+    let data = writer.get_underlying_wrt().data.clone();
+    // read everything back
+    let mut reader = RecordReader::open(VecReader::new(data));
+    let mut read = Vec::new();
+    let mut errors = 0;
+    let mut guard = 0;
+    loop {
+        guard += 1;
+        if guard > 10_000 {
+            errors += 1000;
+            break;
+        }
+        match reader.read_record::<RawEntry>() {
+            Ok(Some(entry)) => read.push(json!([entry.0.len(), digest(entry.0)])),
+            Ok(None) => break,
+            Err(_) => errors += 1,
+        }
+    }
+    let read_tail: Vec<Value> = read.iter().skip(fill_entries).cloned().collect();
+    json!({"ev": "frames", "id": case_id, "start": real_start, "want_start": start, "lens": lens, "ws": ws,
+           "wrote": wrote, "read": read_tail, "nread": read.len(), "nfill": fill_entries, "errors": errors,
+           "reported": reported, "end": end})
+}
+
+fn menu(rng: &mut Rng, cursor_in_block: usize) -> usize {
+    let rem = BLOCK_NUM_BYTES - cursor_in_block % BLOCK_NUM_BYTES;
+    let cap = if rem >= HDR { rem - HDR } else { BLOCK_NUM_BYTES - HDR };
+    let full = BLOCK_NUM_BYTES - HDR;
+    match rng.below(12) {
+        0 => 0,
+        1 => 1 + rng.below(8) as usize,
+        2 => cap.saturating_sub(rng.below(9) as usize),
+        3 => cap + rng.below(3) as usize,
+        4 => cap + full - rng.below(9) as usize,
+        5 => cap + full + rng.below(3) as usize,
+        6 => cap + 2 * full + rng.below(2) as usize,
+        7 => full - 1 + rng.below(3) as usize,
+        8 => 4 * BLOCK_NUM_BYTES + rng.below(100) as usize,
+        9 => 300_000 - rng.below(1000) as usize,
+        10 => rng.below(70_000) as usize,
+        _ => cap.saturating_sub(HDR + rng.below(3) as usize),
+    }
+}
+
+pub fn cmd(args: &Args) {
+    let out_dir = PathBuf::from(args.get("out", "/dev/shm/mrl-out"));
+    let output = Arc::new(Output::new(&out_dir));
+    let count = args.num("cases", 2000) as usize;
+    let seed = args.num("seed", 1);
+    let sweep = args.flag("sweep");
+    // start offsets: the whole block in the sweep, else boundary classes + random
+    let output_in = output.clone();
+    let jobs = args.num("jobs", 8) as usize;
+    let chunks = jobs.max(1) * 4;
+    parallel(chunks, jobs, &out_dir, "trace", move |chunk, file| {
+        let mut lines = vec![json!({"ev": "run", "id": chunk, "c14": 0, "prepop": 0, "script": format!("frames-{chunk}"),
+                                    "policy": "always_flush", "nq": 0, "qlen": []})];
+        let mut rng = Rng(seed.wrapping_mul(0x7777_1234).wrapping_add(chunk as u64));
+        let per_chunk = if sweep { BLOCK_NUM_BYTES / chunks + 1 } else { count / chunks + 1 };
+        for idx in 0..per_chunk {
+            let in_block = if sweep {
+                chunk * per_chunk + idx
+            } else {
+                match rng.below(6) {
+                    0 => 0,
+                    1 => HDR + rng.below(10) as usize,
+                    2 | 3 => BLOCK_NUM_BYTES - rng.below(17) as usize,
+                    4 => BLOCK_NUM_BYTES - HDR - rng.below(30) as usize,
+                    _ => HDR + rng.below((BLOCK_NUM_BYTES - HDR) as u64) as usize,
+                }
+            };
+            if in_block > BLOCK_NUM_BYTES || (in_block > 0 && in_block < HDR) {
+                continue;
+            }
+            let start = in_block + BLOCK_NUM_BYTES * rng.below(3) as usize;
+            let n = 1 + rng.below(3) as usize;
+            // lengths are chosen relative to where the cursor will be: track it approximately
+            let mut cursor = start;
+            let mut lens = Vec::new();
+            for _ in 0..n {
+                let len = menu(&mut rng, cursor % BLOCK_NUM_BYTES);
+                lens.push(len);
+                // advance: padding + frames (approximation good enough for aiming)
+                let mut rest = len;
+                loop {
+                    let rem = BLOCK_NUM_BYTES - cursor % BLOCK_NUM_BYTES;
+                    if rem < HDR {
+                        cursor += rem;
+                        continue;
+                    }
+                    let take = rest.min(rem - HDR);
+                    cursor += HDR + take;
+                    rest -= take;
+                    if rest == 0 {
+                        break;
+                    }
+                }
+            }
+            let line = run_case(chunk * 1_000_000 + idx, start, &lens, rng.next());
+            output_in.add("frame_cases", 1);
+            output_in.add("frame_entries", lens.len() as u64);
+            output_in.add("frames_written", line["ws"].as_array().unwrap().len() as u64);
+            if idx < 2 && chunk == 0 {
+                output_in.sample(json!({"start": start, "lens": lens}));
+            }
+            lines.push(line);
+        }
+        output_in.add("trace_lines", lines.len() as u64);
+        output_in.add("runs", 1);
+        write_lines(file, &lines);
+    });
+    output.finish(json!({"cmd": "frames"}));
 }
